@@ -10,7 +10,7 @@ import (
 // H_C20_lockset: every role that may run concurrently in a live session performs its step(s) with
 // symbolic inputs while the engine records each load/store of library code with the set of mutexes
 // held. The engine reports conflicting accesses of different roles with disjoint locksets.
-// params: [side]
+// params: [side, inbound kind]
 func H_C20_lockset() {
 	zz.TimerStub(true)
 	side := zz.Param(0)
@@ -28,8 +28,8 @@ func H_C20_lockset() {
 	zz.Role("application sender 2")
 	_ = f.s.Send(fixgen.CreateHeartbeat())
 	zz.Role("inbound dispatch")
-	for _, k := range []int{mTestRequest, mHeartbeat, mResendRequest, mLogon, mApp} {
-		b, _ := mkInbound(k, peer, me, 2)
+	{
+		b, _ := mkInbound(zz.Param(1), peer, me, 2)
 		_ = f.h.VerifServe(b)
 	}
 	zz.Role("state query")
